@@ -473,6 +473,16 @@ class BuiltinMixin:
             recv.th.args[0] = args[0].th
         return [Out("val", st, vnone())]
 
+    def bm_list_append_if(self, st, recv, args, kwargs, node):
+        """specification-only: xs.append_if(cond, x)  ==  if cond: xs.append(x)   (no fork)"""
+        r = V.r(recv.z)
+        c = self.truthy(st, args[0])
+        n = st.hread("$llen", r)
+        items = st.hread("$litems", r)
+        st.hwrite("$litems", r, z3.If(c, z3.Store(items, n, self.to_z(st, args[1])), items))
+        st.hwrite("$llen", r, z3.simplify(z3.If(c, n + 1, n)))
+        return [Out("val", st, vnone())]
+
     def bm_list_extend(self, st, recv, args, kwargs, node):
         r = V.r(recv.z)
         other = args[0]
